@@ -47,6 +47,24 @@ type reading struct {
 	FallThrough bool
 }
 
+func (r reading) String() string {
+	var on []string
+	for _, f := range []struct {
+		b bool
+		n string
+	}{
+		{r.GwIgnoresSource, "match.gateways-disregards-sourceLabels"}, {r.SrcVacuousAtGw, "sourceLabels-vacuous-on-gateway"},
+		{r.AbsentIsEmpty, "withoutHeaders-absent-is-empty"}, {r.PortIsSelector, "match.port-is-selector"},
+		{r.MatchGwWidens, "match.gateways-widens-binding"}, {r.NonRegistryAnyPort, "non-registry-host-any-port"},
+		{r.FallThrough, "fall-through-to-less-specific-vs"},
+	} {
+		if f.b {
+			on = append(on, f.n)
+		}
+	}
+	return strings.Join(on, "+")
+}
+
 // allReadings enumerates the readings that can matter for a case (flags whose feature the case does
 // not contain are held false).
 func allReadings(relevant reading) []reading {
@@ -377,8 +395,14 @@ type verdict struct {
 	ActionName string
 }
 
-// evalVS is R3-VS.
+// evalVS is R3-VS for cases with one applicable VirtualService per authority.
 func (c caseSpec) evalVS(p proxySpec, port int, req request, rd reading) verdict {
+	return c.evalVSAll(p, port, req, rd)[0]
+}
+
+// evalVSAll is R3-VS: the admitted answers under one reading (more than one only when several
+// VirtualServices define the same host).
+func (c caseSpec) evalVSAll(p proxySpec, port int, req request, rd reading) []verdict {
 	host := strings.ToLower(stripPort(req.Authority))
 	ports := c.servicePorts()
 	_, inRegistry := ports[host]
@@ -418,10 +442,10 @@ func (c caseSpec) evalVS(p proxySpec, port int, req request, rd reading) verdict
 	}
 	sort.SliceStable(cands, func(i, j int) bool { return cands[i].rank > cands[j].rank })
 	if len(cands) == 0 {
-		return noVS()
+		return []verdict{noVS()}
 	}
 	if p.Kind == "sidecar" && !inRegistry && port != 80 && !rd.NonRegistryAnyPort {
-		return noVS()
+		return []verdict{noVS()}
 	}
 	if p.Kind == "sidecar" && inRegistry {
 		// "HTTP routes will be applied to platform service ports": a registry service is only
@@ -431,42 +455,69 @@ func (c caseSpec) evalVS(p proxySpec, port int, req request, rd reading) verdict
 			has = has || sp == port
 		}
 		if !has {
-			return noVS()
+			return []verdict{noVS()}
 		}
 	}
 
-	for ci, cd := range cands {
+	// VirtualServices of equal specificity (the same host in several VirtualServices, only generated
+	// for gateways: "the traffic properties of a host can be defined using more than one
+	// VirtualService, with certain caveats" -- the order between the fragments is not defined) each
+	// contribute their own first matching rule; any of them is an admitted answer.
+	for ci := 0; ci < len(cands); {
 		if ci > 0 && !rd.FallThrough {
 			break
 		}
-		best := cd.vs
+		cj := ci
+		for cj < len(cands) && cands[cj].rank == cands[ci].rank {
+			cj++
+		}
+		var matched []verdict
 		anySelected := false
-		for i, r := range best.Rules {
-			alt := matchAlphabet[r.Match]
-			act := best.action(r)
-			if len(alt.Entries) == 0 {
-				if !best.topBound(p) {
-					continue
-				}
-				return verdict{Decision: c.actionDecision(act), Why: best.Name + "/" + ruleName(i), MatchName: alt.Name, ActionName: act.Name}
+		var names []string
+		for _, cd := range cands[ci:cj] {
+			v, sel := c.firstMatch(cd.vs, p, port, req, rd)
+			anySelected = anySelected || sel
+			names = append(names, cd.vs.Name)
+			if v != nil {
+				matched = append(matched, *v)
 			}
-			for j, m := range alt.Entries {
-				if !best.selected(m, p, port, rd) {
-					continue
-				}
-				anySelected = true
-				if holds(m, req, port, rd) {
-					return verdict{Decision: c.actionDecision(act), Why: best.Name + "/" + ruleName(i) + "." + matchName(j), MatchName: alt.Name, ActionName: act.Name}
-				}
-			}
+		}
+		if len(matched) > 0 {
+			return matched
 		}
 		if anySelected {
-			return verdict{Decision: decNone, Why: "none(" + best.Name + ")"}
+			return []verdict{{Decision: decNone, Why: "none(" + strings.Join(names, "+") + ")"}}
 		}
-		// every rule of this VirtualService is addressed to other workloads / gateways: it does not
-		// apply here
+		// every rule of these VirtualServices is addressed to other workloads / gateways: they do
+		// not apply here
+		ci = cj
 	}
-	return noVS()
+	return []verdict{noVS()}
+}
+
+// firstMatch evaluates one VirtualService: its first rule (in order) with a selected match entry
+// that holds. selected reports whether any rule of it is addressed to this proxy at all.
+func (c caseSpec) firstMatch(best vsSpec, p proxySpec, port int, req request, rd reading) (v *verdict, selected bool) {
+	for i, r := range best.Rules {
+		alt := matchAlphabet[r.Match]
+		act := best.action(r)
+		if len(alt.Entries) == 0 {
+			if !best.topBound(p) {
+				continue
+			}
+			return &verdict{Decision: c.actionDecision(act), Why: best.Name + "/" + ruleName(i), MatchName: alt.Name, ActionName: act.Name}, true
+		}
+		for j, m := range alt.Entries {
+			if !best.selected(m, p, port, rd) {
+				continue
+			}
+			selected = true
+			if holds(m, req, port, rd) {
+				return &verdict{Decision: c.actionDecision(act), Why: best.Name + "/" + ruleName(i) + "." + matchName(j), MatchName: alt.Name, ActionName: act.Name}, true
+			}
+		}
+	}
+	return nil, selected
 }
 
 // bound: is the VirtualService bound to the proxy at all (top-level gateways, or -- under the
